@@ -20,13 +20,14 @@ import os
 import random
 import shutil
 import threading
+import time
 
 import nv
 import c15lib
 from c15lib import cps, text_of
 
 LIT_KINDS = ("IntLit", "RatLit", "FloatLit", "ImaginaryFloatLit", "StringLit", "BytesLit", "FormatString")
-CONFIGS = ("full", "num", "num2", "str")
+CONFIGS = {"quick": ("full", "num", "num2", "str"), "thorough": ("fullx", "core", "num", "num2", "str")}
 DEPTH = {"quick": 3000, "thorough": 10000}      # nesting depth of the delimiter / keyword towers
 TLC_ENV = None
 
@@ -110,21 +111,43 @@ def make_event(text, lex_st, par_st, ev_st, mode="full"):
 
 
 # ----------------------------------------------------------------------------- (a) bounded model
-def run_mc(rep, tier, wd):
+def run_mc(rep, tier, wd, rng):
+    """runs the configurations concurrently; each one's strings are replayed as soon as it finishes and only
+    a sample is kept (for the re-concretisation with other class members)"""
     results = {}
+    lock = threading.Lock()
+    tot = dict(states=0, trans=0, nontrivial=0, evals=0, n=0)
+    sample = []
+    per = {}
 
     def one(which):
-        results[which] = nv.run_tlc("MC_Lexer", "MC_Lexer_%s_%s.cfg" % (which, tier), wd, workers=4,
-                                    timeout=3000, env=tlc_env())
+        r = nv.run_tlc("MC_Lexer", "MC_Lexer_%s_%s.cfg" % (which, tier), wd, workers=4 if tier == "quick" else 5,
+                       timeout=6000, env=tlc_env())
+        results[which] = r
+        if not r["ok"]:
+            return
+        strings = [json.loads(x) for x in r["tagged"].get("REPLAY", [])]
+        r["tagged"] = {}
+        with lock:          # one replay at a time: the harness already uses every core
+            nt, ev = replay_mc(rep, strings)
+            tot["states"] += r["distinct"]
+            tot["trans"] += len(strings)
+            tot["nontrivial"] += nt
+            tot["evals"] += ev
+            tot["n"] += len(strings)
+            per[which] = len(strings)
+            k = min(len(strings), 60000)
+            sample.extend(s["text"] for s in rng.sample(strings, k))
+            if which == CONFIGS[tier][0] and strings:
+                s0 = strings[len(strings) // 3]
+                rep.sample({"mc_string": text_of(s0["text"]), "tokens": s0["toks"], "parse": s0["pe"]})
 
-    ths = [threading.Thread(target=one, args=(w,)) for w in CONFIGS]
+    ths = [threading.Thread(target=one, args=(w,)) for w in CONFIGS[tier]]
     for t in ths:
         t.start()
     for t in ths:
         t.join()
-    strings = []
-    states = trans = 0
-    for w in CONFIGS:
+    for w in CONFIGS[tier]:
         r = results[w]
         if not r["ok"]:
             if "is violated" in r["error"]:
@@ -134,16 +157,15 @@ def run_mc(rep, tier, wd):
                 print(r["error"])
                 print("\n".join(r["lines"][-30:]))
                 nv.tool_fail("TLC failed on MC_Lexer (%s)" % w)
-        states += r["distinct"]
-        lines = r["tagged"].get("REPLAY", [])
-        trans += len(lines)
-        for x in lines:
-            j = json.loads(x)
-            j["which"] = w
-            strings.append(j)
-    if not strings:
+    if not tot["n"]:
         nv.tool_fail("MC_Lexer produced no REPLAY lines")
-    return strings, states, trans
+    return tot, sample, per
+
+
+def token_key(expected_kind, got_kind):
+    if expected_kind == got_kind:
+        return "tokens:%s:wrong-payload" % expected_kind
+    return "tokens:exp=%s:got=%s" % (expected_kind, got_kind)
 
 
 def kinds_sig(toks, n=6):
@@ -173,7 +195,7 @@ def replay_mc(rep, strings):
             d = next((k for k in range(max(len(got), len(exp))) if k >= len(got) or k >= len(exp) or got[k] != exp[k]), 0)
             ek = exp[d]["k"] if d < len(exp) else "(end)"
             gk = got[d]["k"] if d < len(got) else "(end)"
-            rep.mismatch("tokens:exp=%s:got=%s" % (ek, gk),
+            rep.mismatch(token_key(ek, gk),
                          "lex(%r): token %d is %s, specification expects %s" % (
                              src, d + 1, json.dumps(got[d] if d < len(got) else None)[:160],
                              json.dumps(exp[d] if d < len(exp) else None)[:160]),
@@ -205,11 +227,11 @@ def replay_mc(rep, strings):
     return nontrivial, evaluations
 
 
-def alternates(strings, rng, n):
+def alternates(texts, rng, n):
     """re-concretise a sample of the model's strings with other members of each class"""
     out = []
     seen = set()
-    pool = [s for s in strings if len(s["text"]) >= 1]
+    pool = [{"text": t} for t in texts if len(t) >= 1]
     tries = 0
     while len(out) < n and tries < 6 * n:
         tries += 1
@@ -299,7 +321,7 @@ def gen_mutations(rng, progs, per):
     return out
 
 
-def gen_delims(rng, n, depth):
+def gen_delims(rng, n, depth, mid=300):
     """(texts judged in full, towers of the full depth judged by outcome only)"""
     out = []
     towers = []
@@ -307,7 +329,7 @@ def gen_delims(rng, n, depth):
     for _ in range(n):
         k = rng.choice([1, 2, 3, 5, 8, 13, 30])
         out.append("".join(rng.choice("()[]{}" + " 1a,:") for _ in range(k)))
-    for d in (1, 2, 50, 300, depth):
+    for d in (1, 2, 50, mid, depth):
         tw = []
         for o, c in zip(opens, closes):
             tw += [o * d, c * d, o * d + "1" + c * d, o * d + "1" + c * (d - 1), o * (d - 1) + "1" + c * d,
@@ -318,7 +340,7 @@ def gen_delims(rng, n, depth):
                "B[" + "1," * d + "]", "{" + "1:2," * d + "}", "1 `f` " * d + "2", "switch (x) " + "case 1 -> 1 " * d,
                ";" * d, "1;" * d, "1," * d, "\\" * d, "\\\\" * d, "F'" + "{" * d + "1" + "}" * d + "'",
                "F'{" * min(d, 40) + "1" + "}'" * min(d, 40)]
-        if d > 300:
+        if d > mid:
             towers.extend(tw)
         else:
             out.extend(tw)
@@ -535,7 +557,7 @@ def gen_long(tier):
     regrouped into limbs by the specification in linear time; for the other radices TLC's exact conversion
     is quadratic, which bounds the length that can be validated digit by digit"""
     n = 10000
-    m = 600 if tier == "quick" else 2000
+    m = 400 if tier == "quick" else 2000
     full = ["0x" + "f" * n, "0X" + "123456789abcdefABCDEF0" * (n // 22), "0b" + "10" * (n // 2), "0o" + "7" * n, "0o" + "1234567" * (n // 7),
             "32r" + "v" * n, "4r" + "3210" * (n // 4), "2r" + "1" * n, "16r" + "F" * n, "64r" + "_" * n, "64r" + "Az09+/-_" * (n // 8),
             "1" * m, "9" * m, "0" * n + "7", "36r" + "z" * (m // 2), "7r" + "6" * (m // 2), "1" * m + "q", "1" * m + "r1",
@@ -557,15 +579,15 @@ def drive(rep, tier, seed, wd, mc_strings):
     progs = c15lib.corpus()
     groups = []      # (generator name, texts, how judged)
     q = tier == "quick"
-    groups.append(("alt", alternates(mc_strings, rng, 24000 if q else 150000), "full"))
+    groups.append(("alt", alternates(mc_strings, rng, 7000 if q else 150000), "full"))
     groups.append(("corpus", list(progs), "full"))
     groups.append(("soup", gen_soups(rng, 1500 if q else 20000), "full"))
     sample = progs if not q else rng.sample(progs, min(len(progs), 220))
     groups.append(("mutation", gen_mutations(rng, sample, 4 if q else 20), "full"))
-    delims, towers = gen_delims(rng, 150 if q else 2000, DEPTH[tier])
+    delims, towers = gen_delims(rng, 150 if q else 2000, DEPTH[tier], 150 if q else 400)
     groups.append(("delims", delims, "full"))
     groups.append(("towers", towers, "protocol"))
-    groups.append(("runaway", gen_runaway(rng, 2000 if q else 20000), "full"))
+    groups.append(("runaway", gen_runaway(rng, 800 if q else 20000), "full"))
     ints = gen_int_literals(rng, tier)
     groups.append(("intlit", [t for t, _ in ints], "full"))
     groups.append(("floatlit", gen_float_literals(rng, tier), "full"))
@@ -584,7 +606,9 @@ def drive(rep, tier, seed, wd, mc_strings):
                 texts.append(t)
                 gens.append(g)
                 modes.append(md)
+    tobs = time.time()
     lexr, parr, evs = observe(texts)
+    print("C15: observed %d texts in %.0fs" % (len(texts), time.time() - tobs), flush=True)
     events = [make_event(t, lexr[i], parr[i], evs.get(i), modes[i]) for i, t in enumerate(texts)]
     # generator sanity (not a verdict): what the implementation decoded vs the value the generator rendered
     want = {}
@@ -597,9 +621,9 @@ def drive(rep, tier, seed, wd, mc_strings):
             want[t] = {"t": "str", "s": chars}
     # validate: short texts in big chunks, long ones in small chunks (TLC start-up dominates otherwise)
     order = sorted(range(len(events)), key=lambda i: len(events[i]["text"]))
-    buckets = [([i for i in order if len(events[i]["text"]) <= 12], 4000),
-               ([i for i in order if 12 < len(events[i]["text"]) <= 400], 500),
-               ([i for i in order if 400 < len(events[i]["text"]) <= 4000], 40),
+    buckets = [([i for i in order if len(events[i]["text"]) <= 12], 2500),
+               ([i for i in order if 12 < len(events[i]["text"]) <= 300], 400),
+               ([i for i in order if 300 < len(events[i]["text"]) <= 4000], 8),
                ([i for i in order if len(events[i]["text"]) > 4000], 3)]
     mism = []
     lock = threading.Lock()
@@ -610,9 +634,13 @@ def drive(rep, tier, seed, wd, mc_strings):
         evl = [dict(events[i]) for i in idx]
         sub = os.path.join(wd, "chunk%d" % chunk)
         os.makedirs(sub, exist_ok=True)
-        m, _ = nv.validate_trace("Trace_Lexer", evl, sub, chunk=chunk, timeout=2400, par=max(2, nv.JOBS // 3), xmx="2g")
+        tb = time.time()
+        m, _ = nv.validate_trace("Trace_Lexer", evl, sub, chunk=chunk, timeout=2400,
+                                 par=max(2, nv.JOBS // 2 if chunk <= 8 else nv.JOBS // 4), xmx="2g")
         with lock:
             mism.extend((idx[k], exp) for k, exp in m)
+            if os.environ.get("C15_VERBOSE"):
+                print("C15: %d events in chunks of %d validated in %.0fs" % (len(idx), chunk, time.time() - tb), flush=True)
 
     ths = [threading.Thread(target=val, args=b) for b in buckets]
     for t in ths:
@@ -634,7 +662,7 @@ def drive(rep, tier, seed, wd, mc_strings):
         elif why == "tokens":
             at = exp["at"]
             gk = ev["toks"][at - 1]["k"] if at - 1 < len(ev["toks"]) else "(end)"
-            key = "tokens:exp=%s:got=%s" % (exp["tok"]["k"] if exp["tok"]["k"][0] != "(" else "(end)", gk)
+            key = token_key(exp["tok"]["k"] if exp["tok"]["k"][0] != "(" else "(end)", gk)
             what = "lex(%r): token %d is %s, specification expects %s" % (
                 show, at, json.dumps(ev["toks"][at - 1] if at - 1 < len(ev["toks"]) else None)[:160], json.dumps(exp["tok"])[:160])
         elif why == "parse":
@@ -673,26 +701,27 @@ def run(tier):
     rep = nv.Report("C15", tier, seed, "model_checking")
     wd = nv.work_dir("C15")
     nv.build_harness()
-    strings, states, trans = run_mc(rep, tier, wd)
-    mc_nontrivial, mc_evals = replay_mc(rep, strings)
-    rep.sample({"mc_string": text_of(strings[len(strings) // 3]["text"]), "tokens": strings[len(strings) // 3]["toks"],
-                "parse": strings[len(strings) // 3]["pe"]})
-    n, nontrivial, bygen, evals = drive(rep, tier, seed, wd, strings)
+    t0 = time.time()
+    tot, sample, per = run_mc(rep, tier, wd, random.Random(seed))
+    t2 = time.time()
+    n, nontrivial, bygen, evals = drive(rep, tier, seed, wd, sample)
+    print("C15 %s: model checking + replay %.0fs (%d strings), driver + trace validation %.0fs (%d events)" % (
+        tier, t2 - t0, tot["n"], time.time() - t2, n), flush=True)
     shutil.rmtree(wd, ignore_errors=True)
     rep.assumptions.append("Unicode classification (alphabetic / numeric / whitespace) is transcribed for ASCII and the ranges "
                            "listed in Lexer.tla; texts with other code points are held to the protocol part only")
     rep.assumptions.append("nesting depth explored up to %d; which token lists the grammar accepts is not specified" % DEPTH[tier])
     return rep.finish({
-        "states": states, "transitions": trans,
-        "traces_validated_against_impl": len(strings) + n,
-        "evaluations": mc_evals + evals,
-        "distinct_nontrivial": mc_nontrivial + nontrivial,
+        "states": tot["states"], "transitions": tot["trans"],
+        "traces_validated_against_impl": tot["n"] + n,
+        "evaluations": tot["evals"] + evals,
+        "distinct_nontrivial": tot["nontrivial"] + nontrivial,
         "rule": "one case per distinct input text; non-trivial = the token list contains a literal or an Invalid token, "
                 "or lex/parse did not return ok (parse_error, empty, panic, abort, time-out)",
         "mc_invariants": ["Total", "BoundedDispatch", "PosOk", "EndsInTokens", "FinishExtends", "Progress", "TokensGrow"],
-        "mc_configs": {w: sum(1 for s in strings if s["which"] == w) for w in CONFIGS},
-        "mc_replayed": len(strings), "trace_events": n, "trace_events_by_generator": bygen,
-        "checker_cmd": "tlc MC_Lexer.tla x {full,num,num2,str} (every string replayed: lex, parse, eval) + tlc Trace_Lexer.tla "
+        "mc_configs": per,
+        "mc_replayed": tot["n"], "trace_events": n, "trace_events_by_generator": bygen,
+        "checker_cmd": "tlc MC_Lexer.tla x {" + ",".join(CONFIGS[tier]) + "} (every string replayed: lex, parse, eval) + tlc Trace_Lexer.tla "
                        "(trace validation)",
         "trusted_base": ["TLC", "CommunityModules Json/IOUtils", "lib/BigNum (self-checked by MC_BigNum)",
                          "num-bigint decimal rendering", "harness token / value projection"],
